@@ -51,6 +51,23 @@ let show_outcome = function
   | RPend PWriteErr -> "writeerr"
   | RPend (PFiles _) -> "internal"
 
+let show_status (st : string sresult) : string =
+                  (match st with
+                 | SOk s ->
+                   Printf.sprintf "status=%s cur=%s next=%s count=%d total=%d pend=[%s] ooo=[%s] applied=[%s] avail=[%s] err=%s"
+                     (if s.s_ok then "OK" else "PENDING")
+                     (match s.s_current with CurNone -> "none" | CurVer v -> "v" ^ hexb v)
+                     (match s.s_next with NextEmpty -> "-" | NextLatest -> "latest" | NextVer v -> "v" ^ hexb v)
+                     (int_of_nat s.s_count) (int_of_nat s.s_total) (show_files s.s_pending) (show_files s.s_ooo)
+                     (String.concat " " (Stdlib.List.map (fun r ->
+                        Printf.sprintf "%s:%d:%d" (hexb r.r_version) (int_of_nat r.r_applied) (int_of_nat r.r_total)) s.s_applied))
+                     (show_files s.s_available) (b2s s.s_error)
+                 | SErr PNotClean -> "status=err:notclean"
+                 | SErr (PMissing v) -> "status=err:missing:" ^ hexb v
+                 | SErr p -> "status=err:" ^ show_outcome (RPend p)
+                 | SFileNotFound v -> "status=err:filenotfound:" ^ hexb v
+                 | SPanic -> "status=err:panic")
+
 (* token stream *)
 let toks = ref [||]
 let pos = ref 0
@@ -134,21 +151,7 @@ let () =
             let revs = read_revisions revs in
             let text = match next () with
               | "S" ->
-                (match report has_table dirty files revs with
-                 | SOk s ->
-                   Printf.sprintf "status=%s cur=%s next=%s count=%d total=%d pend=[%s] ooo=[%s] applied=[%s] avail=[%s] err=%s"
-                     (if s.s_ok then "OK" else "PENDING")
-                     (match s.s_current with CurNone -> "none" | CurVer v -> "v" ^ hexb v)
-                     (match s.s_next with NextEmpty -> "-" | NextLatest -> "latest" | NextVer v -> "v" ^ hexb v)
-                     (int_of_nat s.s_count) (int_of_nat s.s_total) (show_files s.s_pending) (show_files s.s_ooo)
-                     (String.concat " " (Stdlib.List.map (fun r ->
-                        Printf.sprintf "%s:%d:%d" (hexb r.r_version) (int_of_nat r.r_applied) (int_of_nat r.r_total)) s.s_applied))
-                     (show_files s.s_available) (b2s s.s_error)
-                 | SErr PNotClean -> "status=err:notclean"
-                 | SErr (PMissing v) -> "status=err:missing:" ^ hexb v
-                 | SErr p -> "status=err:" ^ show_outcome (RPend p)
-                 | SFileNotFound v -> "status=err:filenotfound:" ^ hexb v
-                 | SPanic -> "status=err:panic")
+                show_status (report has_table dirty files revs)
               | "A" ->
                 let order = match next () with "linear" -> Linear | "linear-skip" -> LinearSkip | "non-linear" -> NonLinear | s -> failwith ("order " ^ s) in
                 let baseline = match next () with "-" -> None | h -> Some (bytes_of_string (unhex h)) in
@@ -173,6 +176,49 @@ let () =
               | k -> failwith ("query " ^ k) in
             Printf.printf "%s q%d %s\n" id q text
           done
+        | "hist" ->
+          (* closed loop: the model threads its own database state through the whole
+             operation sequence; each command carries the directory of that moment *)
+          let dirty0 = next () = "1" in
+          let nq = next_int () in
+          let ks = Stdlib.List.init nq (fun _ -> ()) |> Stdlib.List.map (fun () ->
+            let files = parse_files () in
+            let k = match next () with
+              | "S" -> CStatus
+              | "A" ->
+                let order = match next () with "linear" -> Linear | "linear-skip" -> LinearSkip | "non-linear" -> NonLinear | s -> failwith ("order " ^ s) in
+                let baseline = match next () with "-" -> None | h -> Some (bytes_of_string (unhex h)) in
+                let allow = next () = "1" in
+                let n = next_int () in
+                let mode = match next () with "none" -> TxNone | "file" -> TxFile | "all" -> TxAll | s -> failwith ("txmode " ^ s) in
+                let dry = next () = "1" in
+                CApply (order, baseline, allow, nat_of_int n, mode, dry)
+              | "T" -> CSet (match next () with "-" -> None | h -> Some (bytes_of_string (unhex h)))
+              | k -> failwith ("command " ^ k) in
+            (files, k)) in
+          let fails (s : bytes) =
+            let t = string_of_bytes s in
+            String.length t >= 23 && String.sub t 0 23 = "INSERT INTO missing_tbl" in
+          let show_tbl t = String.concat " " (Stdlib.List.map (fun r ->
+            Printf.sprintf "%s:%d:%d:%s:%d" (hexb r.r_version) (int_of_nat r.r_applied) (int_of_nat r.r_total) (b2s r.r_err) (int_of_n r.r_kind))
+            (read_revisions t)) in
+          let res = history heq hs fails ks { db_table = false; db_dirty = dirty0; db_revs = [] } in
+          Stdlib.List.iteri (fun q (a, d) ->
+            let text = match a with
+              | AStatus st -> show_status st
+              | AApply (p, wr) ->
+                Printf.sprintf "plan=%s baseline=%s table=[%s] dirty=%s"
+                  (match p with
+                   | PFiles fs -> "files:" ^ show_files fs
+                   | PNonLinear (s, _) -> "nonlinear:" ^ show_files s
+                   | p -> show_outcome (RPend p))
+                  (match wr with None -> "-" | Some r -> hexb r.r_version)
+                  (show_tbl d.db_revs) (b2s d.db_dirty)
+              | ASet r ->
+                Printf.sprintf "set=%s table=[%s]"
+                  (match r with SetOk _ -> "ok" | SetNotFound -> "notfound" | SetArgs -> "args")
+                  (show_tbl d.db_revs) in
+            Printf.printf "%s q%d %s\n" id q text) res
         | m -> failwith ("mode " ^ m)
       end
     done
